@@ -39,6 +39,26 @@ CHECKS = {
    technique="breadth-first enumeration of every tool/base/frame sequence of length 1..3 over an isometry alphabet; per stack the full delegation matrix of trait entry points is executed and compared with the composed reference",
    text="258 (quick) / 3615 (thorough) stacks x robots x joint vectors: forward, link poses, singularity, constraints, and the four inverse entry points (round trip through the reference FK, continuation order/representative, J6 contracts bit-exact); LinearAxis (3 axes) and Gantry forward via verification-only constructors.",
    note="5-DOF clauses are evaluated on stacks whose tools/frames are axial, as the property presupposes."),
+ "C10": dict(engine="E1-lattice", ref="5/C10",
+   technique="bounded-exhaustive enumeration of cell configurations x postures x safety tables x modes x entry points against a brute-force all-pairs oracle with an own triangle-distance; first-collision mode re-run in rayon pools 1..16",
+   text="Synthetic box robot (vertex counts varied so the pre-filter's 'smaller mesh' choice flips) with/without tool and base, 11 environment layouts incl. bodies inside the inflated box of a link and enclosing bodies, 192 postures, tables: touch, 2/5 cm, mixed, per-pair overrides, NEVER_COLLIDES on each candidate pair in both key orders; collision_details/collides/RobotBody::collides/near (with a table different from the body's). All-mode list must equal the oracle set, first-mode a non-empty subset iff the set is non-empty, no-check nothing; pool sizes 1,2,4,8,16 must agree.",
+   note="The oracle (own f64 segment/triangle code) is cross-checked against parry's exact queries in every run; pairs within 1 mm of their limit are not judged; tasks are assumed atomic (textual audit of collisions.rs each run, exit 2 if it no longer holds)."),
+ "C11": dict(engine="E1-lattice", ref="5/C11",
+   technique="bounded-exhaustive enumeration of constructors x frames x environments x safety x limits x postures with a differential oracle (ordered filter of the underlying stack's answers)",
+   text="Each inverse entry point of KinematicsWithShape must return exactly the underlying stack's answers with !collides, in unchanged order, bit-equal; forward/link poses/singularity bit-equal; the constructed stack equals base*FK_ref*tool with the given limits; positioned_robot places meshes at the link poses.",
+   note="collides() itself is tied to the pair oracle by C10. Cases where collisions remove some but not all answers must occur or the run is void."),
+ "C12": dict(engine="E1-lattice + E4-sched", ref="5/C12",
+   technique="scenario lattice on the real planner with scripted RNG, plus stateless DFS over all (or preemption-bounded) interleavings of the strategy race under a token-passing controller at the stop-flag hook points; rayon runs validated against explored traces",
+   text="E1: ~8.9k scenarios (start, stroke length/shape, check steps, cost limit, recursion depth, include-interpolation, six obstacle layouts, safety, limits): every Ok path is judged for collision freedom (collides + brute-force pairs), limits, start configuration, ordered LAND/TRACE/PARK embedding with poses reproduced by the reference FK, linearity of LIN_INTERP waypoints, transition cost, and absence of LIN_INTERP when not requested. E4: 2-strategy races explored completely, 4-strategy races with preemption bound 1 (thorough 2); success must be schedule independent; 20 rayon runs per scenario in pools 1..16 must reproduce explored per-strategy hook sequences.",
+   note="RNG draws are scripted to a constant so RRT legs are deterministic; the controller is sequentially consistent (the flag is monotone, see DESIGN 8); the cost clause is judged only when no RRT gap closing can be inside the Cartesian part."),
+ "C13": dict(engine="E3-env", ref="5/C13",
+   technique="exhaustive tree exploration of scripted sample sequences (ScriptedRng hook) of the real dual-tree RRT, default-first with every deviation at every consumed position; cancellation injected inside every consumed sample",
+   text="Layouts {free, pillar, plates around the tool} x limits x step sizes x try budgets 0..5 (thorough 6) x alphabet of 5 (thorough 7) joint-space samples: every Ok path starts/ends bit-exactly at start/goal, every node is reported free, consecutive nodes are within 3 steps, nodes are within non-wrapping limits; a flag raised before the call gives Err, a flag raised inside sample k lets at most that iteration finish.",
+   note="Runs on plain OS threads (the thread-local script must not be clobbered by rayon work stealing); every 16th execution is replayed and compared."),
+ "C14": dict(engine="E1-lattice", ref="5/C14",
+   technique="bounded-exhaustive enumeration of cells x initial postures x from/to vectors against the 12-candidate definition with the full collision check as oracle; pools 1..16",
+   text="The offered neighbours must equal, as a multiset, the single-joint substitutions that arc membership accepts and the full collides() of the same robot reports free; from/to vectors drive each joint into free space, self-collision, the base, the environment or out of limits.",
+   note="The full collision check is tied to the pair oracle by C10."),
  "C15": dict(engine="E1-lattice", ref="5/C15",
    technique="lattice enumeration of postures/stacks/steps; the private Jacobian is reconstructed row by row through the public API and compared with the geometric Jacobian of the reference link model; linear maps decided on a basis",
    text="J (via torques_from_vector(e_k)) vs axis x lever / axis from FK_ref within eps*reach + 4e-15*reach/eps; J_geo * velocities(X) = X on the 6 basis twists and 2 mixed ones; torques = J_geo^T F; isometry, vector and fixed entry points agree.",
